@@ -28,7 +28,7 @@ impl Prop for C18 {
         "C18"
     }
     fn rule_text(&self) -> String {
-        "case = 1-3 virtual keys (payload key / layer-while-held / macro) operated through on-press, on-release (new and legacy fakekey syntax), a macro item, a sequence and TCP-style ActOnFakeKey ops; populations: 'state' (random press/release/tap/toggle operations, reference state down/up followed by the payload marker within 3 ms, whichever trigger is used), 'hold-for-duration' (D-1/D/D+1 re-arming, exact release tick, one press and one release), 'macro-collision' (a macro that presses a virtual key, types under it and releases it while another key operates a second virtual key at every offset: all four outputs of the macro and the other key's operation happen), 'on-idle' (fires once, not before the idle time has accumulated since the last input - OS repeats of a held key or layer hold included -, not again until re-armed). non-trivial = the payload marker changed state at least once; distinct = config x history hash.".into()
+        "case = 1-3 virtual keys (payload key / layer-while-held / macro) operated through on-press, on-release (new and legacy fakekey syntax), a macro item, a sequence and TCP-style ActOnFakeKey ops; populations: 'state' (random press/release/tap/toggle operations, reference state down/up followed by the payload marker within 3 ms, whichever trigger is used), 'hold-for-duration' (D-1/D/D+1 re-arming, exact release tick, one press and one release), 'hfd-mixed' (hold-for-duration on a key that other keys press / release / tap / toggle meanwhile, against a reference of down-intervals), 'macro-collision' (a macro that presses a virtual key, types under it and releases it while another key operates a second virtual key at every offset: all four outputs of the macro and the other key's operation happen), 'on-idle' (fires once, not before the idle time has accumulated since the last input - OS repeats of a held key or layer hold included -, not again until re-armed). non-trivial = the payload marker changed state at least once; distinct = config x history hash.".into()
     }
     fn runs(&self, tier: Tier) -> u64 {
         match tier {
@@ -126,6 +126,31 @@ impl Prop for C18 {
             case.set("pop", "macro-collision");
             case.set("min_cfg", 0);
             case.set("min_ops", 0);
+            case.set("min_gaps", 0);
+            return case;
+        }
+        if r.chance(80) {
+            // 'hfd-mixed' population: hold-for-duration on a virtual key that other keys press,
+            // release, tap and toggle meanwhile; operations 15 / 40 / 160 ms apart with D = 100, so
+            // every outcome is far from a boundary
+            case.cfg = "(defsrc a p r t g)\n(defvirtualkeys vk1 1)\n(deflayer l0 (hold-for-duration 100 vk1) (on-press press-vkey vk1) (on-press release-vkey vk1) (on-press tap-vkey vk1) (on-press toggle-vkey vk1))\n".to_string();
+            let mut ops = vec![Op::Gap(2)];
+            for _ in 0..r.range(2, 7) {
+                let k = oscode_of(*r.pick(&["a", "a", "a", "p", "r", "r", "t", "g"]));
+                ops.push(Op::Press(k));
+                ops.push(Op::Gap(3));
+                ops.push(Op::Release(k));
+                ops.push(Op::Gap(*r.pick(&[12u32, 37, 157])));
+            }
+            // leave it released
+            ops.push(Op::Press(oscode_of("r")));
+            ops.push(Op::Gap(3));
+            ops.push(Op::Release(oscode_of("r")));
+            ops.push(Op::Gap(200));
+            case.ops = ops;
+            case.set("pop", "hfd-mixed");
+            case.set("min_ops", 0);
+            case.set("min_cfg", 0);
             case.set("min_gaps", 0);
             return case;
         }
@@ -259,6 +284,143 @@ impl Prop for C18 {
         }
         if case.param("pop") == Some("tcp-race") {
             return check_tcp_race(case, want_sample);
+        }
+        if case.param("pop") == Some("hfd-mixed") {
+            let mut st = match Stepper::new_filtered(&case.cfg, &case.files, Mode::Ticking) {
+                Ok(s) => s,
+                Err(_) => return RunOut::skip("parser-rejected"),
+            };
+            st.run_ops(&case.ops);
+            st.gap(200);
+            st.finish();
+            let outs = st.trace.outs.clone();
+            let mut o = RunOut::pass();
+            o.sim_ms = st.trace.sim_ms;
+            o.count("pop.hfd-mixed", 1);
+            let mut sig = fnv(0, case.cfg.as_bytes());
+            for op in &case.ops {
+                sig = fnv(sig, op.short().as_bytes());
+            }
+            o.sig = sig;
+            // reference: the virtual key is a key that only kanata operates. press: down until a
+            // release; release: up; tap: up afterwards; toggle: the other state; hold-for-duration:
+            // down until 100 ms after its most recent activation (an explicit press / release / tap /
+            // toggle in between takes over: the pending timed release is void)
+            let mut tm = 0u64;
+            let mut down = false;
+            let mut deadline: Option<u64> = None;
+            let mut intervals: Vec<(u64, u64)> = vec![];
+            let mut since = 0u64;
+            let mut close = |down: &mut bool, since: u64, at: u64, intervals: &mut Vec<(u64, u64)>| {
+                if *down {
+                    intervals.push((since, at));
+                    *down = false;
+                }
+            };
+            for op in &case.ops {
+                match op {
+                    Op::Gap(n) => {
+                        let end = tm + *n as u64;
+                        if let Some(dl) = deadline {
+                            if dl <= end {
+                                close(&mut down, since, dl, &mut intervals);
+                                deadline = None;
+                            }
+                        }
+                        tm = end;
+                    }
+                    Op::Press(c) => {
+                        let name = ["a", "p", "r", "t", "g"].iter().find(|n| oscode_of(n) == *c).copied().unwrap_or("?");
+                        let at = tm + 1;
+                        match name {
+                            "a" => {
+                                if !down {
+                                    down = true;
+                                    since = at;
+                                }
+                                deadline = Some(at + 100);
+                            }
+                            "p" => {
+                                if !down {
+                                    down = true;
+                                    since = at;
+                                }
+                                deadline = None;
+                            }
+                            "r" => {
+                                close(&mut down, since, at, &mut intervals);
+                                deadline = None;
+                            }
+                            "t" => {
+                                // a tap of a key that is down releases it (and presses nothing new that lasts)
+                                close(&mut down, since, at, &mut intervals);
+                                intervals.push((at, at + 1));
+                                deadline = None;
+                            }
+                            "g" => {
+                                if down {
+                                    close(&mut down, since, at, &mut intervals);
+                                } else {
+                                    down = true;
+                                    since = at;
+                                }
+                                deadline = None;
+                            }
+                            _ => {}
+                        }
+                    }
+                    _ => {}
+                }
+            }
+            // (the run continues for 200 ms after the last op)
+            if let Some(dl) = deadline {
+                if dl <= tm + 200 {
+                    close(&mut down, since, dl, &mut intervals);
+                }
+            }
+            // observed intervals of the payload key
+            let mut got: Vec<(u64, u64)> = vec![];
+            let mut cur: Option<u64> = None;
+            for e in outs.iter().filter(|e| e.key == "Kb1") {
+                match e.kind {
+                    OutKind::Press => {
+                        if cur.is_none() {
+                            cur = Some(e.t)
+                        }
+                    }
+                    OutKind::Release => {
+                        if let Some(s0) = cur.take() {
+                            got.push((s0, e.t));
+                        }
+                    }
+                    _ => {}
+                }
+            }
+            o.nontrivial = !got.is_empty();
+            // merge model intervals that touch (a tap right at an edge) and drop 1-tick taps that an
+            // adjacent interval swallows; compare with a tolerance of 4 ticks per edge
+            let norm = |v: &Vec<(u64, u64)>| -> Vec<(u64, u64)> {
+                let mut out: Vec<(u64, u64)> = vec![];
+                for (s0, e0) in v {
+                    match out.last_mut() {
+                        Some(last) if *s0 <= last.1 + 2 => last.1 = last.1.max(*e0),
+                        _ => out.push((*s0, *e0)),
+                    }
+                }
+                out
+            };
+            let (want, gotn) = (norm(&intervals), norm(&got));
+            let close_enough = want.len() == gotn.len() && want.iter().zip(gotn.iter()).all(|(w, g)| w.0.abs_diff(g.0) <= 4 && w.1.abs_diff(g.1) <= 4);
+            let d = st.down_set();
+            if !d.is_empty() {
+                o.set_fail("C18:stuck-at-end", format!("still down: {:?}: {}", d.keys, outs_short(&outs)), vec![]);
+            } else if !close_enough {
+                o.set_fail("C18:virtual-key-state-differs-from-reference", format!("payload key down-intervals: expected about {want:?}, got {gotn:?}; ops {} :: {}", ops_short(&case.ops), outs_short(&outs)), vec![]);
+            }
+            if want_sample {
+                o.sample = Some(sample_json(case, &outs, json!({"pop": "hfd-mixed"})));
+            }
+            return o;
         }
         if case.param("pop") == Some("macro-collision") {
             let mut st = match Stepper::new_filtered(&case.cfg, &case.files, Mode::Ticking) {
